@@ -11,21 +11,39 @@ UNSEEDED = ('numpy.random.default_rng', 'numpy.random.Generator', 'numpy.random.
 FLOOR_DRAWS = 8
 
 
-def _addr_use_ok(c, p):
-    if isinstance(p, ast.Compare) and all(isinstance(o, (ast.In, ast.NotIn, ast.Eq, ast.NotEq, ast.Is, ast.IsNot)) for o in p.ops):
+def _addr_use_ok(c, p, local=None):
+    """an address (id()/hash() result) may only be tested for membership in / added to / used as a key of a container that is LOCAL to the call:
+    an address-keyed attribute or global outlives the objects, and CPython re-uses addresses of dead objects (history-dependent results)"""
+    def loc(e):
+        return local is None or (isinstance(e, ast.Name) and e.id in local)
+    if isinstance(p, ast.Compare) and all(isinstance(o, (ast.In, ast.NotIn)) for o in p.ops) and p.left is c:
+        return all(loc(x) for x in p.comparators)
+    if isinstance(p, ast.Compare) and all(isinstance(o, (ast.Eq, ast.NotEq, ast.Is, ast.IsNot)) for o in p.ops):
         return True
     if isinstance(p, ast.Call) and isinstance(p.func, ast.Attribute) and p.func.attr in ('add', 'discard', 'remove') and c in p.args:
-        return True
+        return loc(p.func.value)
     if isinstance(p, ast.Subscript) and p.slice is c:
-        return True       # id-keyed dict lookup
+        return loc(p.value)       # id-keyed lookup in a local dict
     return False
+
+
+def _locals(fn):
+    a = fn.node.args
+    params = {x.arg for x in a.posonlyargs + a.args + a.kwonlyargs}
+    out = set()
+    for n in ast.walk(fn.node):
+        if isinstance(n, ast.Assign):
+            for t in n.targets:
+                if isinstance(t, ast.Name) and isinstance(n.value, (ast.Set, ast.Dict, ast.List, ast.Call)) and (not isinstance(n.value, ast.Call) or dotted(n.value.func) in ('set', 'dict', 'list', 'collections.OrderedDict', 'OrderedDict')):
+                    out.add(t.id)
+    return out - params
 
 
 def check(model, R, tier):
     R.rule('C19.SEED', 'manual_seed seeds every generator family the package draws from (NumPy global state and Python random) with its argument, unconditionally', floor=2)
     R.rule('C19.SOURCE', 'every random draw in the package is a call on the seeded global generators (np.random.<legacy fn> / random.<fn>); no unseeded generator object, OS entropy, uuid or clock', floor=FLOOR_DRAWS)
     R.rule('C19.ORDER', 'no iteration (for / comprehension / list() / sum() / sorted() / tuple()) over a hash-ordered container built in the package; sets are used for membership only', floor=3)
-    R.rule('C19.NOADDR', 'id() / hash() results are used only for identity membership tests, never as data, ordering keys or seeds', floor=1)
+    R.rule('C19.NOADDR', 'id() / hash() results are used only for identity membership tests against containers local to the call, never as data, ordering keys, seeds or keys of state that outlives the call', floor=1)
     ms = model.func('synapgrad.utils.manual_seed')
     arg = ms.pos_params[0]
     cfg = CFG(ms.node)
@@ -135,11 +153,11 @@ def check(model, R, tier):
                     t = p.targets[0].id
                     uses = [(u, parents.get(id(u))) for u in ast.walk(fn.node) if isinstance(u, ast.Name) and u.id == t and isinstance(u.ctx, ast.Load)]
                     stores = [u for u in ast.walk(fn.node) if isinstance(u, ast.Name) and u.id == t and isinstance(u.ctx, ast.Store)]
-                    if len(stores) == 1 and uses and all(_addr_use_ok(u, q) for u, q in uses):
+                    if len(stores) == 1 and uses and all(_addr_use_ok(u, q, _locals(fn)) for u, q in uses):
                         ok = True
                     R.ob('C19.NOADDR', fn.qualname, norm(p)[:80], ok, 'an object address / hash flows into a value: results would depend on the allocation layout', '%s:%d' % (fn.mod.relpath, c.lineno))
                     continue
-                if _addr_use_ok(c, p):
+                if _addr_use_ok(c, p, _locals(fn)):
                     ok = True
                 if False and isinstance(p, ast.Compare) and all(isinstance(o, (ast.In, ast.NotIn, ast.Eq, ast.NotEq, ast.Is, ast.IsNot)) for o in p.ops):
                     ok = True
